@@ -201,8 +201,18 @@ func judgeOutboxPost(r *verdict.Run, sc *sim.Scenario, res *sim.Result, ri int, 
 		}
 	}
 	if sm["type"] == "Create" {
-		// every embedded object has a fresh id
+		// every embedded object has a fresh id of its own
 		objs := asList(sm["object"])
+		seenIDs := map[string]int{newID: -1}
+		for i, o := range objs {
+			if om, isM := o.(map[string]interface{}); isM {
+				oid, _ := om["id"].(string)
+				if j, dup := seenIDs[oid]; dup && oid != "" {
+					viol("object-id-not-distinct", "pub.(*sideEffectActor).AddNewIDs", "Create object ids", fmt.Sprintf("object %d has the same id %q as %s", i, oid, map[bool]string{true: "the activity", false: fmt.Sprintf("object %d", j)}[j < 0]))
+				}
+				seenIDs[oid] = i
+			}
+		}
 		for i, o := range objs {
 			om, isM := o.(map[string]interface{})
 			if !isM {
